@@ -98,6 +98,16 @@ def _scalar(x):
     return float(a.real)
 
 
+def _rel(a, b, k=1, rtol=1e-9):
+    """relative closeness (the estimates are scale-equivariant: no absolute floor); inf/nan must match"""
+    a, b = float(a), float(b)
+    if math.isnan(a) or math.isnan(b):
+        return math.isnan(a) and math.isnan(b)
+    if math.isinf(a) or math.isinf(b):
+        return a == b
+    return abs(a - b) <= rtol * max(k, 1) * max(abs(a), abs(b))
+
+
 def _impl(fn):
     try:
         return ("ok", fn())
@@ -125,6 +135,9 @@ def oracle_opnorm(case):
     M = G.dense(desc)
     smax = float(np.linalg.norm(M, 2)) if M.size else 0.0
     prev = None
+    base = None
+    if desc.get("scale_k") is not None and case.get("base") is not None:
+        base = G.linear_of(case["base"])
     for k in sorted(case["budgets"]):
         r = _impl(lambda: operator_norm(A, maxiter=k, key=G.make_key(key)))
         if k < 1:
@@ -140,6 +153,18 @@ def oracle_opnorm(case):
             return {"why": "estimate exceeds the exact induced 2-norm", "maxiter": k, "estimate": est, "exact": smax, "matrix": M.tolist() if not np.iscomplexobj(M) else str(M.tolist())}
         if smax == 0.0 and est != 0.0:
             return {"why": "estimate of the zero operator is not exactly 0", "maxiter": k, "estimate": est}
+        if est == 0.0 and smax > 0.0:
+            v0 = G.start_vector(A, key)
+            if np.linalg.norm(M @ v0.ravel()) > 0:
+                return {"why": "estimate is 0 for a non-zero operator (its image of the start vector is non-zero)", "maxiter": k,
+                        "exact": smax, "key": key, "desc": desc}
+        if base is not None:
+            rb = _impl(lambda: operator_norm(base, maxiter=k, key=G.make_key(key)))
+            if rb[0] == "ok":
+                eb = _scalar(rb[1])
+                if not _rel(est, eb * 2.0 ** desc["scale_k"], 8 * k) and not (eb == 0):
+                    return {"why": "operator_norm is not scale-equivariant: norm(2^k A) != 2^k norm(A)", "maxiter": k, "k": desc["scale_k"],
+                            "estimate_scaled": est, "estimate_base": eb, "desc": desc}
         if prev is not None and est < prev[1] * (1 - 1e-9) - 1e-300:
             return {"why": "estimate decreased when the budget grew", "budgets": [prev[0], k], "estimates": [prev[1], est]}
         prev = (k, est)
@@ -170,12 +195,18 @@ def oracle_pdhg(case):
         return {"why": "estimate_parameters raised", "error": r[2]}
     tau, sigma = (_scalar(v) for v in r[1])
     c = _scalar(operator_norm(G.linear_of(desc), maxiter=case["maxiter"], key=G.make_key(case.get("key"))))
-    if c == 0 or c is None:
+    if c is None:
+        return None
+    if c == 0:
+        Mz = G.dense(desc)
+        if Mz.any() and np.linalg.norm(Mz @ G.start_vector(G.linear_of(desc), case.get("key")).ravel()) > 0:
+            return {"why": "norm estimate of a non-zero operator is 0: tau, sigma are not finite", "tau": tau, "sigma": sigma,
+                    "exact_norm": float(np.linalg.norm(Mz, 2)), "desc": desc}
         return None  # zero operator: any step sizes are admissible; the estimator returns inf (outside the statement)
     fac = 1.01 if case["factor"] == "default" else (1.0 if case["factor"] is None else case["factor"])
     prod = tau * sigma * c * c
     out = {"tau": tau, "sigma": sigma, "c": c, "tau*sigma*c^2": prod, "ratio": case["ratio"], "factor": case["factor"]}
-    if not common.close(sigma, case["ratio"] * tau, 4, 1e-9):
+    if not _rel(sigma, case["ratio"] * tau, 4):
         return {"why": "sigma != ratio * tau", **out}
     if fac > 1.0 and not prod < 1.0:
         return {"why": "tau*sigma*||C||^2 is not < 1 for a safety factor > 1", **out}
@@ -209,13 +240,16 @@ def oracle_padmm(case):
     cB = _scalar(operator_norm(B, maxiter=case["maxiter"], key=G.make_key(case.get("key"))))
     fac = 1.01 if case["factor"] == "default" else case["factor"]
     out = {"mu": mu, "nu": nu, "cA": cA, "cB": cB, "factor": case["factor"]}
+    MAz = G.dense(case["A"])
+    if mu == 0 and MAz.any() and np.linalg.norm(MAz @ G.start_vector(A, case.get("key")).ravel()) > 0:
+        return {"why": "mu = 0 for a non-zero operator A (mu > ||A||^2 violated)", **out, "exact_norm_A": float(np.linalg.norm(MAz, 2))}
     if fac is None:
-        if not (common.close(mu, cA * cA, 4, 1e-9) and common.close(nu, cB * cB, 4, 1e-9)):
+        if not (_rel(mu, cA * cA, 4) and _rel(nu, cB * cB, 4)):
             return {"why": "factor disabled: the bare squared estimates are not returned", **out}
         return None
     if fac > 1.0 and ((cA > 0 and not mu > cA * cA) or (cB > 0 and not nu > cB * cB)):
         return {"why": "mu > ||A||^2 / nu > ||B||^2 violated for a safety factor > 1", **out}
-    if not (common.close(mu, fac * cA * cA, 4, 1e-9) and common.close(nu, fac * cB * cB, 4, 1e-9)):
+    if not (_rel(mu, fac * cA * cA, 4) and _rel(nu, fac * cB * cB, 4)):
         return {"why": "mu, nu are not factor * squared estimates", **out}
     return None
 
@@ -331,7 +365,7 @@ def oracle(case):
 # correspondence
 
 
-def check_estimates(ctx, model, desc, key, budgets, converged_check=False):
+def check_estimates(ctx, model, desc, key, budgets, converged_check=False, base=None):
     from scico.linop import operator_norm, power_iteration
 
     A = G.linear_of(desc)
@@ -342,6 +376,9 @@ def check_estimates(ctx, model, desc, key, budgets, converged_check=False):
     B = A.H @ A
     trivial = (not M.any()) or desc["kind"] == "scaled-identity"
     case0 = {"what": "opnorm", "desc": desc, "key": key, "budgets": list(budgets), "converged_check": converged_check}
+    if base is not None:
+        case0["base"] = base
+        ctx.count(f"scale:2^{'-' if desc['scale_k'] < 0 else '+'}{min(abs(desc['scale_k']) // 10 * 10, 40)}s")
     ctx.count(f"op:{desc.get('flavour', desc['kind'])}")
     for k in budgets:
         case = {**case0, "budget": k}
@@ -357,7 +394,7 @@ def check_estimates(ctx, model, desc, key, budgets, converged_check=False):
                 ctx.disagree("estim.opnorm.reject", case, list(map(str, r)), list(map(str, m)), oracle=oracle)
             continue
         est, mest = _scalar(r[1]), b2f(m[1])
-        if est is None or not common.close(est, mest, 8 * max(1, k), 1e-9):
+        if est is None or not _rel(est, mest, 8 * max(1, k)):
             ctx.disagree("estim.opnorm", case, est if est is not None else str(r[1]), mest, oracle=oracle)
             continue
         # power_iteration on the Gram operator: eigenvalue estimate and vector
@@ -368,10 +405,10 @@ def check_estimates(ctx, model, desc, key, budgets, converged_check=False):
             continue
         mu, v = r[1]
         mu = complex(np.asarray(mu))
-        if abs(mu.imag) > 1e-9 * (1 + abs(mu.real)):
+        if abs(mu.imag) > 1e-9 * abs(mu.real):
             ctx.disagree("estim.power.imag", case, str(mu), b2f(m[1]["mu"]), oracle=oracle, note="Rayleigh quotient of a Hermitian operator is not real")
             continue
-        ok = common.close(mu.real, b2f(m[1]["mu"]), 8 * max(1, k), 1e-9) and common.allclose(
+        ok = _rel(mu.real, b2f(m[1]["mu"]), 8 * max(1, k)) and common.allclose(
             G.realview_vec(v), common.b2fs(m[1]["v"]), 8 * max(1, k), 1e-8)
         if not ok:
             ctx.disagree("estim.power", case, {"mu": mu.real, "v": G.realview_vec(v).tolist()},
@@ -428,7 +465,7 @@ def check_pdhg(ctx, model, case):
     m = model.call("pdhg", c=f2b(c), ratio=f2b(case["ratio"]), factor=None if fac is None else f2b(fac))
     tau, sigma = (_scalar(v) for v in r[1])
     mt, ms = b2f(m[0]), b2f(m[1])
-    if not (common.close(tau, mt, 64, 1e-9) and common.close(sigma, ms, 64, 1e-9)):
+    if not (_rel(tau, mt, 64) and _rel(sigma, ms, 64)):
         ctx.disagree("estim.pdhg", case, [tau, sigma], [mt, ms], oracle=oracle)
         return
     bad = oracle_pdhg(case)
@@ -464,7 +501,7 @@ def check_padmm(ctx, model, case):
     fac = 1.01 if case["factor"] == "default" else case["factor"]
     m = model.call("padmm", cA=cs[0][1], cB=cs[1][1], factor=None if fac is None else f2b(fac))
     mu, nu = (_scalar(v) for v in r[1])
-    if not (common.close(mu, b2f(m[0]), 64, 1e-9) and common.close(nu, b2f(m[1]), 64, 1e-9)):
+    if not (_rel(mu, b2f(m[0]), 64) and _rel(nu, b2f(m[1]), 64)):
         ctx.disagree("estim.padmm", case, [mu, nu], [b2f(m[0]), b2f(m[1])], oracle=oracle)
         return
     bad = oracle_padmm(case)
@@ -472,54 +509,107 @@ def check_padmm(ctx, model, case):
         ctx.disagree("estim.padmm.property", case, bad, None, oracle=oracle)
 
 
-def check_nlpadmm(ctx, model, rng):
-    """NonLinearPADMM.estimate_parameters on H(x,z) = A sin(x) + B z : J_x = A diag(cos x), J_z = B"""
+def _nl_build(case):
+    """H(x,z) = A sin(x) + B (z * w(x)),  w = cos(x) when `coupled` (needs n == p) else 1:
+    J_x = A diag(cos x) - [coupled] B diag(z sin x),  J_z = B diag(w(x)) — the z-Jacobian depends on x."""
     import scico.numpy as snp
     from scico.function import Function
+
+    A = np.asarray(case["A"], dtype=np.float64)
+    B = np.asarray(case["B"], dtype=np.float64)
+    x = np.asarray(case["x"], dtype=np.float64)
+    z = np.asarray(case["z"], dtype=np.float64)
+    m, n = A.shape
+    p = B.shape[1]
+    As, Bs = snp.array(A), snp.array(B)
+    if case["coupled"]:
+        fn = lambda x, z: As @ snp.sin(x) + Bs @ (z * snp.cos(x))  # noqa: E731
+        Jx = A @ np.diag(np.cos(x)) - B @ np.diag(z * np.sin(x))
+        Jz = B @ np.diag(np.cos(x))
+    else:
+        fn = lambda x, z: As @ snp.sin(x) + Bs @ z  # noqa: E731
+        Jx = A @ np.diag(np.cos(x))
+        Jz = B
+    H = Function(((n,), (p,)), output_shape=(m,), eval_fn=fn, input_dtypes=np.float64, output_dtype=np.float64)
+    return H, Jx, Jz, x, z
+
+
+def _nl_call(case):
+    import scico.numpy as snp
     from scico.optimize import NonLinearPADMM
 
-    m, n, p = (int(rng.integers(1, 4)) for _ in range(3))
+    H, Jx, Jz, x, z = _nl_build(case)
+    kw = dict(maxiter=case["maxiter"], key=G.make_key(case["key"]), **_factor_arg(case["factor"]))
+    if not case["default_point"]:
+        kw.update(x=snp.array(x), z=snp.array(z))
+    return _impl(lambda: NonLinearPADMM.estimate_parameters(H, **kw)), Jx, Jz
+
+
+def oracle_nlpadmm(case):
+    """mu, nu against the norm estimates (by the implementation's own operator_norm, same budget and key) of the
+    *documented* Jacobians J_x H(x,z), J_z H(x,z), given as dense matrices"""
+    import scico.numpy as snp
+    from scico.linop import MatrixOperator, operator_norm
+
+    r, Jx, Jz = _nl_call(case)
+    if case["maxiter"] < 1:
+        return None if (r[0] == "err" and r[1] == "value") else {"why": "maxiter < 1 not rejected", "got": str(r)}
+    if r[0] == "err":
+        return {"why": "estimate_parameters raised", "error": r[2]}
+    mu, nu = (_scalar(v) for v in r[1])
+    cs = [_scalar(operator_norm(MatrixOperator(snp.array(J)), maxiter=case["maxiter"], key=G.make_key(case["key"]))) for J in (Jx, Jz)]
+    fac = 1.01 if case["factor"] == "default" else (1.0 if case["factor"] is None else case["factor"])
+    out = {"mu": mu, "nu": nu, "norm_estimate_Jx": cs[0], "norm_estimate_Jz": cs[1], "factor": case["factor"], "Jx": Jx.tolist(), "Jz": Jz.tolist()}
+    if not (_rel(mu, fac * cs[0] ** 2, 64) and _rel(nu, fac * cs[1] ** 2, 64)):
+        return {"why": "mu, nu are not factor * (norm estimate of J_x H(x,z), J_z H(x,z))^2", **out}
+    if fac > 1 and ((cs[0] > 0 and not mu > cs[0] ** 2) or (cs[1] > 0 and not nu > cs[1] ** 2)):
+        return {"why": "mu > ||J_x||^2 / nu > ||J_z||^2 violated", **out}
+    return None
+
+
+ORACLES["nlpadmm"] = oracle_nlpadmm
+
+
+def check_nlpadmm(ctx, model, rng):
+    """NonLinearPADMM.estimate_parameters on H(x,z) = A sin(x) + B (z*w(x)) with known partial Jacobians"""
+    import scico.random
+
+    m, n = int(rng.integers(1, 4)), int(rng.integers(1, 4))
+    coupled = bool(rng.integers(0, 2))
+    p = n if coupled else int(rng.integers(1, 4))
     A = common.dyadic(rng, (m, n), bits=2, scale=3.0)
     B = common.dyadic(rng, (m, p), bits=2, scale=3.0)
-    x = common.dyadic(rng, (n,), bits=2, scale=1.0)
-    z = common.dyadic(rng, (p,), bits=2, scale=1.0)
+    x = common.dyadic(rng, (n,), bits=2, scale=1.5)
+    z = common.dyadic(rng, (p,), bits=2, scale=1.5)
     factor = ["default", None, 1.5, 2.0][int(rng.integers(0, 4))]
     maxiter = int([0, 1, 3, 20, 40][int(rng.integers(0, 5))])
     key = [None, 1, 2][int(rng.integers(0, 3))]
-    As, Bs = snp.array(A), snp.array(B)
-    H = Function(((n,), (p,)), output_shape=(m,), eval_fn=lambda x, z: As @ snp.sin(x) + Bs @ z,
-                 input_dtypes=np.float64, output_dtype=np.float64)
-    use_default_point = bool(rng.integers(0, 3) == 0)
-    kw = dict(maxiter=maxiter, key=G.make_key(key), **_factor_arg(factor))
-    if not use_default_point:
-        kw.update(x=snp.array(x), z=snp.array(z))
-    else:
-        x = np.zeros(n)
+    default_point = bool(rng.integers(0, 4) == 0)
+    if default_point:
+        x, z = np.zeros(n), np.zeros(p)
     case = {"what": "nlpadmm", "A": A.tolist(), "B": B.tolist(), "x": x.tolist(), "z": z.tolist(), "factor": factor,
-            "maxiter": maxiter, "key": key, "default_point": use_default_point}
-    ctx.case({"what": "nlpadmm", "factor": factor, "maxiter": maxiter}, None if maxiter < 1 else json.dumps(case, sort_keys=True))
+            "maxiter": maxiter, "key": key, "default_point": default_point, "coupled": coupled}
+    ctx.case({"what": "nlpadmm", "factor": factor, "maxiter": maxiter, "coupled": coupled}, None if maxiter < 1 else json.dumps(case, sort_keys=True))
     ctx.count(f"nlpadmm:factor={factor}")
-    r = _impl(lambda: NonLinearPADMM.estimate_parameters(H, **kw))
-    Jx = A @ np.diag(np.cos(x))
+    ctx.count("nlpadmm:coupled" if coupled else "nlpadmm:separable")
+    r, Jx, Jz = _nl_call(case)
     cs = []
-    for M, nn in ((Jx, n), (B, p)):
-        import scico.random
-
+    for M, nn in ((Jx, n), (Jz, p)):
         v0 = np.asarray(scico.random.randn(shape=(nn,), key=G.make_key(key), dtype=np.float64)[0])
         cs.append(_model(model, "opnorm", A=rows(M), v0=fs2b(v0), maxiter=maxiter))
     if r[0] == "err" or any(c[0] == "err" for c in cs):
         if not (r[0] == "err" and all(c[0] == "err" and c[1] == r[1] for c in cs)):
-            ctx.disagree("estim.nlpadmm.reject", case, list(map(str, r)), [list(map(str, c)) for c in cs])
+            ctx.disagree("estim.nlpadmm.reject", case, list(map(str, r)), [list(map(str, c)) for c in cs], oracle=oracle)
         return
     fac = 1.01 if factor == "default" else factor
     mres = model.call("padmm", cA=cs[0][1], cB=cs[1][1], factor=None if fac is None else f2b(fac))
     mu, nu = (_scalar(v) for v in r[1])
-    cA, cB = b2f(cs[0][1]), b2f(cs[1][1])
-    if not (common.close(mu, b2f(mres[0]), 64, 1e-9) and common.close(nu, b2f(mres[1]), 64, 1e-9)):
-        ctx.disagree("estim.nlpadmm", case, [mu, nu], [b2f(mres[0]), b2f(mres[1])])
-    elif fac is not None and fac > 1 and ((cA > 0 and not mu > cA * cA) or (cB > 0 and not nu > cB * cB)):
-        ctx.violation({"kind": "failing-input", "case": case, "failing": {"why": "mu > ||J_x||^2 / nu > ||J_z||^2 violated", "mu": mu, "nu": nu, "cA": cA, "cB": cB}}, True,
-                      "estim.nlpadmm: property fails on the implementation")
+    if not (_rel(mu, b2f(mres[0]), 64) and _rel(nu, b2f(mres[1]), 64)):
+        ctx.disagree("estim.nlpadmm", case, [mu, nu], [b2f(mres[0]), b2f(mres[1])], oracle=oracle)
+        return
+    bad = oracle_nlpadmm(case)
+    if bad is not None:
+        ctx.disagree("estim.nlpadmm.property", case, bad, None, oracle=oracle)
 
 
 def check_diagnorm(ctx, model, case):
@@ -655,11 +745,15 @@ def _corpus():
 def run_case(ctx, model, case):
     w = case["what"]
     if w in ("opnorm", "power"):
-        check_estimates(ctx, model, case["desc"], case.get("key"), case["budgets"], case.get("converged_check", False))
+        check_estimates(ctx, model, case["desc"], case.get("key"), case["budgets"], case.get("converged_check", False), case.get("base"))
     elif w == "pdhg":
         check_pdhg(ctx, model, case)
     elif w == "padmm":
         check_padmm(ctx, model, case)
+    elif w == "nlpadmm":
+        r = oracle_nlpadmm(case)
+        if r is not None:
+            ctx.disagree("estim.nlpadmm.property", case, r, None, oracle=oracle)
     elif w == "diagnorm":
         check_diagnorm(ctx, model, case)
     elif w == "sidnorm":
@@ -691,6 +785,34 @@ def correspond(ctx, model):
         key = [None, 0, 1, 2, 3][int(rng.integers(0, 5))]
         conv = desc.get("flavour") == "gapped"
         check_estimates(ctx, model, desc, key, ladder + ([60] if conv else []), converged_check=conv)
+    # -- scale stream: the same operators times 2^k, k down to -40 and up to +40 (zero stays zero) ---------
+    scale_ks = [-40, -30, -20, -15, -12, -8, -4, 8, 20, 40]
+    short = [0, 1, 2, 5, 20]
+    bases = [
+        {"kind": "diag-real", "d": [2.0, 1.0, 0.5]},
+        {"kind": "scaled-identity", "c": 3.0, "n": 3},
+        {"kind": "matrix-real", "A": [[1.0, 2.0], [3.0, 4.0], [0.0, 1.0]]},
+        {"kind": "matrix-real", "A": [[0.0, 0.0], [0.0, 0.0]], "flavour": "zero"},
+    ]
+    for b in bases:
+        for k in scale_ks:
+            check_estimates(ctx, model, G.scaled(b, k), None, short, base=b)
+    for i in range(ctx.n(12, 80)):
+        b = G.gen_operator(rng)
+        k = int(scale_ks[int(rng.integers(0, len(scale_ks)))] if rng.integers(0, 2) else rng.integers(-40, 41))
+        d = G.scaled(b, k)
+        if d.get("unscaled_sq_dropped"):
+            b = {**b, "sq": False}
+        check_estimates(ctx, model, d, [None, 1, 2][int(rng.integers(0, 3))], short, base=b)
+    for i in range(ctx.n(24, 120)):
+        b = G.gen_operator(rng, ["diag-real", "matrix-real", "scaled-identity", "gapped", "matrix-complex", "jacobian"][int(rng.integers(0, 6))])
+        d = G.scaled(b, int(rng.integers(-40, 41)))
+        fac = ["default", None, 2.0][int(rng.integers(0, 3))]
+        mi = int([1, 3, 20][int(rng.integers(0, 3))])
+        ctx.count("scale:estimators")
+        check_pdhg(ctx, model, {"what": "pdhg", "desc": d, "ratio": float([1.0, 4.0][int(rng.integers(0, 2))]), "factor": fac, "maxiter": mi, "key": None})
+        if d["kind"] != "jacobian":
+            check_padmm(ctx, model, {"what": "padmm", "A": d, "B": None, "factor": fac, "maxiter": mi, "key": None})
     # -- estimators ---------------------------------------------------------------------
     for i in range(ctx.n(90, 500)):
         desc = G.gen_operator(rng)
@@ -759,5 +881,5 @@ def replay(ctx, model, case):
     print("replay:", "property FAILS on implementation:" if r else "no failure at this input", r)
     if r:
         ctx.violation({"kind": "failing-input", "case": c, "failing": r}, True, "replay")
-    elif model is not None and c.get("what") in ("opnorm", "power", "pdhg", "padmm", "diagnorm", "sidnorm"):
+    elif model is not None and c.get("what") in ("opnorm", "power", "pdhg", "padmm", "nlpadmm", "diagnorm", "sidnorm"):
         run_case(ctx, model, c)
